@@ -64,15 +64,15 @@ CLAIMS = {
         "note": TB + "Multi-mod lazer / intermode sets (B-trees with several elements), borrowed intermode sets and end-to-end result equality are outside.",
     },
     "C09": {
-        "text": "The guards: *ScoreState::accuracy() of all four modes lies in [0,1] and is never NaN for every state with bounded fields (2^16; mania 2^8; osu slider origins 2^5 in the thorough tier); an osu! play with zero hits is worth zero pp for every shape and legacy mods word; the attribute builder's outputs are finite over the documented input range (0.1 grid, rate table); difficulty_value / count_top_weighted_strains on empty and all-zero lists.",
+        "text": "The guards: *ScoreState::accuracy() of all four modes lies in [0,1] and is never NaN for every state with bounded fields (2^16; mania 2^8; osu: stable origin — the slider-accuracy origins did not finish and are experimental); an osu! play with zero hits is worth zero pp for every shape and legacy mods word; the attribute builder's outputs are finite over the documented input range (0.1 grid, rate table); difficulty_value / count_top_weighted_strains on empty and all-zero lists.",
         "note": TB + "Finiteness / non-negativity of stars and pp on non-degenerate input depends on powf/ln/exp/erf, which have no exact solver semantics: outside.",
     },
     "C10": {
-        "text": "The feature-gated StrainsVec: the same harness source is verified under the default features and under --features raw_strains against one executable model for every 3 pushes (4 thorough) of symbolic strains (>= 0 or -0.0, non-NaN): len, iter (with its length protocol), retain/sort/sorted_non_zero_iter_mut/transmute_into_vec, into_vec (zero pattern enumerated), sum (thorough). Both builds equal to the model implies equal to each other.",
+        "text": "The feature-gated StrainsVec: the same harness source is verified under the default features and under --features raw_strains against one executable model for every 3 pushes (4 thorough) of symbolic strains (>= 0 or -0.0, non-NaN): len and iter (with its ExactSizeIterator length protocol, zero runs re-expanded in place). Both builds equal to the model implies equal to each other. Harnesses for retain/sort/transmute, into_vec and sum exist but did not finish (std's sort and repeat_n under CBMC) and are kept as 'experimental', outside the claim.",
         "note": TB + "Whole-calculation equality across builds, negative/NaN pushes (the builds differ there by design) and the `sync` wrappers are outside.",
     },
     "C16": {
-        "text": "Structural part: the peaks a skill exports are its closed sections plus the open section, whatever its value (provided trait method, symbolic peaks incl. exactly 0) — so all skills report the same number of sections; difficulty_value(peaks, w) for two peaks from a table equals hi + lo*w bit-exactly with zeros dropped; zero runs are re-expanded in place by into_vec (C10 harness).",
+        "text": "Structural part: the peaks a skill exports are its closed sections plus the open section, whatever its value (provided trait method, symbolic peaks incl. exactly 0) — so all skills report the same number of sections; the bit-exact re-aggregation harness for difficulty_value did not finish (std sort under CBMC) and is experimental, outside the claim.",
         "note": TB + "The section loop of process(), osu aim/speed re-aggregation, real strain values and the final sqrt*multiplier step are outside.",
     },
     "C17": {
